@@ -39,8 +39,11 @@ NAMES = [b"a", b"b", b"p(1)", b"a", b"q", b"_x"]
 def gen_case(rng, multi):
     n = rng.randint(2, 6)
     atom = lambda: rng.randint(1, n) + 2           # input atoms 3..n+2: differ from their images
-    exts = set(rng.sample(range(3, n + 3), rng.randint(0, min(2, n))))       # external atoms never occur in a head (aspif: externals are not defined by rules)
-    hatom = lambda: rng.choice([a for a in range(3, n + 3) if a not in exts] or [n + 3])
+    exts = set(rng.sample(range(3, n + 3), rng.randint(0, min(2, n))))
+    # mostly externals are atoms no rule defines; in a quarter of the programs a head may also be declared external (before or after
+    # the rule): the directive then has no effect (the converter tests the head flag when it records AND when it flushes externals)
+    strict = rng.random() < 0.75
+    hatom = lambda: rng.choice([a for a in range(3, n + 3) if not strict or a not in exts] or [n + 3])
     lit = lambda: rng.choice([1, 1, -1]) * atom()
     lits = lambda k=3: [lit() for _ in range(rng.randint(0, k))]
     steps = []
@@ -98,19 +101,17 @@ def original(c):
         elif k == "S": p["rules"].append((s[1], s[2], ("s", s[3], [tuple(x) for x in s[4]]))); heads |= set(s[2])
         elif k == "M": p["minimize"].append((s[1], [tuple(x) for x in s[2]]))
         elif k == "O": p["outputs"].append((progs.hexs(bytes(s[1]) if not isinstance(s[1], str) else bytes.fromhex(s[1])), s[2]))
-    # an external directive on an atom that (already) occurs in a head is ignored; the last value given counts
-    seen_heads = set()
+    # the last value given counts (an external on an atom that rules define has no effect: asp_sem)
     for s in c["steps"][0]:
-        if s[0] in ("R", "S"): seen_heads |= set(s[2])
-        elif s[0] == "X" and s[1] not in seen_heads: p["externals"][s[1]] = s[2]
-    for a in list(p["externals"]):
-        if a in heads and False: del p["externals"][a]
+        if s[0] == "X": p["externals"][s[1]] = s[2]
     return p
 
 def corpus(ctx):
     return [
         {"ext": 1, "inc": False, "steps": [[("R", 0, [5], [3, -4]), ("R", 1, [], [3]), ("S", 0, [5], 2, [(3, 2), (4, 1)]), ("M", 1, [(3, 2), (-4, -3)]), ("M", 1, [(5, -1)]), ("O", b"a", [5]), ("O", b"b", [5]), ("O", b"c", []), ("X", 6, 0), ("X", 5, 1)]]},
         {"ext": 0, "inc": False, "steps": [[("R", 0, [], [3]), ("X", 4, 0), ("X", 5, 1), ("X", 6, 2), ("R", 1, [3], [4, 5])]]},
+        {"ext": 0, "inc": False, "steps": [[("X", 3, 0), ("R", 1, [4], []), ("R", 0, [3], [4])]]},          # external declared before the atom gets a rule
+        {"ext": 0, "inc": False, "steps": [[("X", 3, 1), ("R", 1, [4], []), ("R", 0, [3], [4])]]},
         {"ext": 1, "inc": False, "steps": [[("M", 0, [(3, -2147483648)])]]},                       # D9 (fixed): reported as error
         {"ext": 0, "inc": True, "steps": [[("R", 0, [5], [3]), ("X", 7, 0)], [("R", 0, [7], [5]), ("O", b"b", [7])]]},
     ]
